@@ -66,6 +66,7 @@ K_FLOW, K_SEND_ALL, K_SEND_ITER, K_DGRAM_EP, K_DGRAM_LISTENER = range(5)
 KIND_NAMES = {K_FLOW: "flow-control", K_SEND_ALL: "stream.send_all", K_SEND_ITER: "stream.send_all_from_iterable",
               K_DGRAM_EP: "datagram-endpoint.sendto", K_DGRAM_LISTENER: "datagram-listener.send_to"}
 A_SEND, A_READY, A_RESUME, A_LOST, A_CLOSE, A_CANCEL, A_TICK, A_SETTLE = range(8)
+A_ACLOSE, A_CANCEL_ACLOSE = 8, 9     # adapters: a task running aclose(); cancel that task
 A_PAUSE = 1   # kind 0: [1] is pause_writing, [1, k] is socket-writable for the adapters
 
 FD = 987
@@ -266,6 +267,7 @@ class Session:
         self.sock = None
         self.transport = None
         self.dead = False
+        self.closer = None
         if kind == K_FLOW:
             self.stub = StubTransport()
             self.flow = WriteFlowControl(self.stub, loop)
@@ -436,16 +438,24 @@ class Session:
                     self.transport.abort()
             elif code == A_CLOSE:
                 self.transport.close()
+            elif code == A_ACLOSE:
+                if self.closer is None:
+                    self.closer = self.loop.create_task(self.adapter.aclose(), name="closer")
+            elif code == A_CANCEL_ACLOSE:
+                if self.closer is not None and not self.closer.done():
+                    self.closer.cancel()
 
     def finish(self):
-        for task in self.tasks:
+        if self.closer is not None and not self.closer.done():
+            self.closer.cancel()
+        for task in self.tasks + [self.closer]:
             if task is not None and not task.done():
                 task.cancel()
         if self.transport is not None:
             with contextlib.suppress(AttributeError):   # CPython: abort() after close() has completed its flush
                 self.transport.abort()
         self.settle()
-        for task in self.tasks:
+        for task in self.tasks + [self.closer]:
             if task is not None and task.done() and not task.cancelled():
                 task.exception()
 
@@ -515,7 +525,7 @@ def oracle(inp):
                     f"(get_write_buffer_size() = {bufsize})")
     bufsize, dq, paused, statuses = final
     cancelled = {a[1] for a in actions if a[0] == A_CANCEL}
-    lost = any(a[0] in (A_LOST, A_CLOSE) for a in actions)
+    lost = any(a[0] in (A_LOST, A_CLOSE, A_ACLOSE) for a in actions)
     for t, st in enumerate(statuses):
         if st == 1:
             return f"{KIND_NAMES[kind]}: stranded: task {t} is still suspended after the buffer drained / the connection was lost"
@@ -687,7 +697,7 @@ def extra(ctx):
 
 # ------------------------------------------------------------------------------------------------ cases
 
-def _enabled(kind, snap, lost_done, closed=False):
+def _enabled(kind, snap, lost_done, closed=False, aclose=0):
     bufsize, _dq, paused, statuses = snap
     out = []
     for t, st in enumerate(statuses):
@@ -709,7 +719,11 @@ def _enabled(kind, snap, lost_done, closed=False):
         if bufsize > 0:
             out += [[A_READY, 1], [A_READY, 1 << 16]]
         if not lost_done:
-            out += [[A_LOST, 0], [A_LOST, 1], [A_CLOSE]]
+            out += [[A_LOST, 0], [A_LOST, 1]]
+        if not closed and not lost_done:
+            out += [[A_CLOSE], [A_ACLOSE]]
+        if aclose == 1:
+            out.append([A_CANCEL_ACLOSE])
     return out
 
 
@@ -719,10 +733,21 @@ def _no_more_sends(kind, acts):
     if kind == K_FLOW:
         return False
     if kind == K_SEND_ALL:
-        return any(a[0] == A_CLOSE for a in acts)
+        return any(a[0] in (A_CLOSE, A_ACLOSE) for a in acts)
     # CPython 3.12.1 writelines() has no `_conn_lost` check either: after connection_lost it raises AttributeError
     # (released loop) instead of dropping the data -- same interpreter defect as F6, recorded in the notes
-    return any(a[0] in (A_CLOSE, A_LOST) for a in acts)
+    return any(a[0] in (A_CLOSE, A_ACLOSE, A_LOST) for a in acts)
+
+
+def _aclose_state(acts):
+    """0 no aclose() task, 1 created and not cancelled by the script, 2 cancelled"""
+    st = 0
+    for a in acts:
+        if a[0] == A_ACLOSE:
+            st = max(st, 1)
+        elif a[0] == A_CANCEL_ACLOSE and st == 1:
+            st = 2
+    return st
 
 
 def _bfs(kind, ntasks, max_actions, budget):
@@ -733,9 +758,9 @@ def _bfs(kind, ntasks, max_actions, budget):
         for acts, snap, used in level:
             if used >= max_actions:
                 continue
-            lost_done = any(a[0] in (A_LOST,) or (a[0] == A_CLOSE and kind != K_FLOW) for a in acts)
+            lost_done = any(a[0] == A_LOST for a in acts)
             closed = _no_more_sends(kind, acts)
-            for a in _enabled(kind, snap, lost_done, closed):
+            for a in _enabled(kind, snap, lost_done, closed or any(x[0] in (A_CLOSE, A_ACLOSE) for x in acts), _aclose_state(acts)):
                 for tail in ([[A_SETTLE]], [[A_TICK], [A_SETTLE]]):
                     acts2 = acts + [a] + tail
                     snaps, _, _ = execute(kind, ntasks, acts2)
@@ -751,19 +776,20 @@ def _bfs(kind, ntasks, max_actions, budget):
 def _random(kind, ntasks, rng, rounds):
     acts, snap, lost_done = [], [0, 0, 0, [0] * ntasks], False
     for _ in range(rounds):
-        en = _enabled(kind, snap, lost_done, _no_more_sends(kind, acts))
+        en = _enabled(kind, snap, lost_done, _no_more_sends(kind, acts) or any(x[0] in (A_CLOSE, A_ACLOSE) for x in acts),
+                      _aclose_state(acts))
         if kind != K_FLOW:
             en = [a if a[0] != A_SEND else [A_SEND, a[1], rng.choice([1, 2, 5, 9]), a[3]] for a in en]
             en = [a if a[0] != A_READY else [A_READY, rng.choice([1, 2, 3, 1 << 16])] for a in en]
         k = rng.choice([1, 1, 2, 3])
         batch, used = [], set()
         for a in rng.sample(en, len(en)):
-            key = ("t", a[1]) if a[0] in (A_SEND, A_CANCEL) else ("g", a[0])
+            key = ("t", a[1]) if a[0] in (A_SEND, A_CANCEL) else ("g", min(a[0], A_ACLOSE))
             if key in used or len(batch) >= k:
                 continue
-            if a[0] in (A_LOST, A_CLOSE) and rng.random() < 0.7:
+            if a[0] in (A_LOST, A_CLOSE, A_ACLOSE) and rng.random() < 0.7:
                 continue
-            bad_with_send = (A_CLOSE,) if kind == K_SEND_ALL else (A_CLOSE, A_LOST)
+            bad_with_send = (A_CLOSE, A_ACLOSE) if kind == K_SEND_ALL else (A_CLOSE, A_ACLOSE, A_LOST)
             if kind != K_FLOW and (
                     (a[0] in bad_with_send and any(b[0] == A_SEND for b in batch))
                     or (a[0] == A_SEND and any(b[0] in bad_with_send for b in batch))):
@@ -773,7 +799,7 @@ def _random(kind, ntasks, rng, rounds):
         if not batch:
             continue
         acts += batch + rng.choice([[[A_SETTLE]], [[A_TICK]], [[A_TICK], [A_SETTLE]], [[A_TICK], [A_TICK]]])
-        lost_done = lost_done or any(a[0] == A_LOST or (a[0] == A_CLOSE and kind != K_FLOW) for a in batch)
+        lost_done = lost_done or any(a[0] == A_LOST for a in batch)
         snaps, _, _ = execute(kind, ntasks, acts)
         snap = snaps[-1]
     if not acts or acts[-1] != [A_SETTLE]:
@@ -784,7 +810,8 @@ def _random(kind, ntasks, rng, rounds):
 def _case(kind, ntasks, acts, tag):
     snaps, _, _ = execute(kind, ntasks, acts)
     tags = [KIND_NAMES[kind], tag, f"tasks{ntasks}"]
-    for code, name in ((A_CANCEL, "cancel"), (A_LOST, "lost"), (A_CLOSE, "close")):
+    for code, name in ((A_CANCEL, "cancel"), (A_LOST, "lost"), (A_CLOSE, "close"), (A_ACLOSE, "aclose"),
+                       (A_CANCEL_ACLOSE, "aclose-cancelled")):
         if any(a[0] == code for a in acts):
             tags.append(name)
     parked = any(1 in s[3] and s[1] > 0 for s in snaps)
@@ -820,6 +847,14 @@ def cases(tier, rng, escalate):
             depth = (5 if thorough else 4) if kind == K_FLOW else (4 if thorough else 3)
             for acts in _bfs(kind, ntasks, depth, 4000 if thorough else (900 if kind == K_FLOW else 500)):
                 yield _case(kind, ntasks, acts, "exhaustive")
+    # close paths: a parked sender, aclose() in a task, that task cancelled, then the connection dies / is flushed
+    S, T = [A_SETTLE], [A_TICK]
+    for kind in (K_SEND_ALL, K_SEND_ITER, K_DGRAM_EP, K_DGRAM_LISTENER):
+        for closing in ([[A_ACLOSE], S, [A_CANCEL_ACLOSE], S], [[A_ACLOSE], [A_CANCEL_ACLOSE], S], [[A_ACLOSE], T, [A_CANCEL_ACLOSE], T],
+                        [[A_ACLOSE], S], [[A_CLOSE], S]):
+            for ending in ([[A_LOST, 0], S], [[A_LOST, 1], S], [[A_READY, 1 << 16], S], [[A_READY, 1], T, [A_LOST, 1], S]):
+                for senders in ([[A_SEND, 0, 3, 0], S], [[A_SEND, 0, 3, 0], [A_SEND, 1, 2, 0], S]):
+                    yield _case(kind, 2, senders + closing + ending, "scenario")
     for _ in range(8000 if thorough else 1200):
         kind = rng.choice(kinds)
         ntasks = rng.choice([1, 2, 3, 3])
